@@ -73,6 +73,9 @@ def sweep(tier, seed=0):
         rulesets.append(rnd.sample(pats, rnd.choice([2, 2, 3])))
     # the shapes that matter: a specific non-linear rule next to a more general one
     rulesets += [[(f, (g, "x"), (g, "x")), (f, "x", "y")], [(f, "x", "x"), (f, "x", "y")], [(f, "x", "x")], [(f, "x", (g, "x")), (f, "x", "y"), (f, "a", "y")]]
+    # rules whose left-hand side is a bare variable (stored under the root variable edge) or a constant, next to
+    # ordinary rules: terms whose head starts no other rule must still reach them
+    rulesets += [["x"], [(f, "x", "x"), "x"], [(f, "x", 1), 1, "x"], [0, (g, "x")], ["x", (g, (g, "x"))], [1, "a"]]
     for lhss in rulesets:
         rules = [RewriteRule(lhs, (h, i) + VARS[: 1 + ("y" in repr(lhs))] if False else (h, i), VARS) for i, lhs in enumerate(lhss)]
         rs = RuleSet(*rules)
